@@ -44,6 +44,23 @@ def exactIn (f : DType) (n : Int) : Prop := -(2 ^ mantissa f : Int) ≤ n ∧ n 
 def wrap (d : DType) (v : Int) : Int :=
   if d.signed then (v + 2 ^ (d.bits - 1)) % 2 ^ d.bits - 2 ^ (d.bits - 1) else v % 2 ^ d.bits
 
+/-- float32 rounding of an integer of magnitude at most 2^25: exact up to 2^24, above that the even integers are
+representable and an odd one goes to its neighbour that is a multiple of 4 (ties to even); integers beyond 2^25 are
+outside this model (`none`) -/
+def f32int (n : Int) : Option Int :=
+  if -(2 ^ 24 : Int) ≤ n ∧ n ≤ 2 ^ 24 then some n
+  else if -(2 ^ 25 : Int) ≤ n ∧ n ≤ 2 ^ 25 then
+    some (if n % 2 = 0 then n else if (n + 1) % 4 = 0 then n + 1 else n - 1)
+  else none
+
+/-- the argument of the logarithm in a float32 crop buffer, operations in the order written: `(x - m) + 1` -/
+def cropArgF32 (x m : Int) : Option Int :=
+  (f32int (x - m)).bind fun d => f32int (d + 1)
+
+/-- the same with the 1 added to the data first: `(x + 1) - m` -/
+def cropArgF32PlusFirst (x m : Int) : Option Int :=
+  (f32int (x + 1)).bind fun d => f32int (d - m)
+
 def DType.ofString? : String → Option DType
   | "uint8" => some .u1 | "uint16" => some .u2 | "uint32" => some .u4 | "uint64" => some .u8
   | "int8" => some .i1 | "int16" => some .i2 | "int32" => some .i4 | "int64" => some .i8
